@@ -592,28 +592,45 @@ def s_isinstance(x, t):
 
 # ---------------------------------------------------------------- exploration
 
-def explore(fn, bound=4, maxpaths=20000, stats=None):
-    """Run fn(ctx) once per feasible path.  Returns [(ctx, out)]; cuts are counted."""
+def explore(fn, bound=4, maxpaths=20000, stats=None, on_path=None, deadline_s=None):
+    """Run fn(ctx) once per feasible path.  Returns [(ctx, out)]; cuts are counted.
+    on_path(ctx, out) is called right after each completed path while its solver is live;
+    returning "stop" ends the exploration early (used once violations have been found).
+    deadline_s: wall-clock budget; exceeding it is Inconclusive (never a pass)."""
     st = Stats()
     stack = [[]]
     results = []
+    t0 = time.time()
+    stopped = False
     while stack:
         prefix = stack.pop()
         ctx = Ctx(prefix, bound, st)
         Ctx.cur = ctx
         try:
             out = fn(ctx)
-            results.append((ctx, out))
             st.paths += 1
+            if on_path is not None:
+                if on_path(ctx, out) == "stop":
+                    stopped = True
+            else:
+                results.append((ctx, out))
         except Cut as c:
             st.cuts += 1
             k = str(c)
             st.cut_reasons[k] = st.cut_reasons.get(k, 0) + 1
         finally:
             Ctx.cur = None
+        if stopped:
+            break
         stack.extend(ctx.pending)
         if st.paths + st.cuts > maxpaths:
+            if stats is not None:
+                stats.add(st)
             raise Inconclusive(f"path budget exceeded ({maxpaths})")
+        if deadline_s is not None and time.time() - t0 > deadline_s:
+            if stats is not None:
+                stats.add(st)
+            raise Inconclusive(f"time budget exceeded ({deadline_s}s) after {st.paths} paths")
     if stats is not None:
         stats.add(st)
     return results, st
